@@ -155,6 +155,28 @@ def _options(vc, pv, kind):
     return o
 
 
+def statement_option_fields(vc, pv, kind):
+    """the per-request options C46 is about, as Session._create_response_future hands them to the message: consistency, optional serial consistency, page size
+    (always set below: the session default stands in when the statement has none) and optional client timestamp"""
+    o = {}
+    cl = vc.int('consistency')
+    vc.assume(sym.and_(cl >= 0, cl <= 10))
+    o['consistency'] = cl
+    o['values'] = None if kind != 'EXECUTE' else [B(vc, 'value0_bytes')]
+    if vc.choice('serial_consistency', [False, True]):
+        scl = vc.int('serial_cl')
+        vc.assume(sym.or_(scl == 8, scl == 9))
+        o['serial_consistency'] = scl
+    fs = vc.int('fetch_size')
+    vc.assume(sym.and_(fs >= 1, fs <= 2 ** 31 - 1))
+    o['fetch_size'] = fs
+    if pv >= 3 and vc.choice('timestamp', [False, True]):
+        ts = vc.int('timestamp_us')
+        vc.assume(cser.in_signed_range(ts, 8))
+        o['timestamp'] = ts
+    return o
+
+
 def next_page_options(vc, pv, kind):
     """what a request for a LATER page carries (C18): always a paging state and a page size, optionally bound values, a serial consistency and a client timestamp"""
     o = {}
@@ -292,11 +314,11 @@ class _BT(object):
         self.value = v
 
 
-def _mk_batch(pv):
-    @harness('C03', 'BATCH-v%#x' % pv, functions=[PR + 'BatchMessage.send_body'], native='contracts.native.c03:replay')
+def _mk_batch(pv, prop='C03', label='', entries=(0, 1, 2)):
+    @harness(prop, '%sBATCH-v%#x' % (label, pv), functions=[PR + 'BatchMessage.send_body'], native='contracts.native.c03:replay')
     def batch(vc):
         from cassandra import protocol, UnsupportedOperation
-        n = vc.choice('entries', [0, 1, 2])
+        n = vc.choice('entries', list(entries))
         qs, parts = [], []
         for i in range(n):
             prepared = vc.choice('entry%d_prepared' % i, [False, True])
